@@ -96,7 +96,11 @@ def _render(node, indent):
     if node.kind == "seq":
         for item in node.value:
             head, rest = _render(item, indent + 2)
-            lines.append(pad + _join("-", head))
+            if not head and rest:
+                # compact notation: "- key: value" / "- - item"
+                rest = [pad + "- " + rest[0][indent + 2:]] + rest[1:]
+            else:
+                lines.append(pad + _join("-", head))
             lines.extend(rest)
         return tag, lines
     for key, value in node.value:
